@@ -2,6 +2,7 @@
 from layout_common import *
 
 GEN = []
+ALSO = ["C01b"]   # C01 composed with C02 (what is stored in a record is what navigation returns): own theorems, judge and run; ./check C01 runs that engine too
 RULE = ("random record descriptions (depth<=4, fan-out<=5, OCCURS 1-4, OCCURS DEPENDING ON with counters anywhere before the table, REDEFINES of "
         "elementary and group items at every child position, FILLER items, DISPLAY/COMP-3/binary items) printed as copybooks; a position-coded record "
         "with the chosen counter values; EVERY navigation path (names, first/second/last index of every table, one refused index) through EBCDIC().nav "
